@@ -173,6 +173,17 @@ def main(argv=None):
         return 2
     return 0
 
+def _job_table(results):
+    """one row per job; the decision-prefix sub-jobs (`name#pK`) of a split job are summed into their parent"""
+    rows = {}
+    for r in results:
+        base = r.name.split('#p')[0]
+        d = rows.setdefault(base, dict(name=base, rung=r.rung, paths=0, panics=0, steps=0, feasibility_queries=0, obligations=0, discharged=0, wall_s=0.0, partition_checked=True, sub_jobs=0))
+        d['paths'] += r.paths; d['panics'] += r.panic_paths; d['steps'] += r.steps; d['feasibility_queries'] += r.queries; d['obligations'] += r.obligations
+        d['discharged'] += r.discharged; d['wall_s'] = round(d['wall_s'] + r.wall_s, 2); d['sub_jobs'] += 1
+        if r.partition_ok is not True: d['partition_checked'] = r.partition_ok if d['partition_checked'] is True else d['partition_checked']
+    return list(rows.values())[:600]
+
 def write_evidence(pid, tier, seed, mod, results, infos, wall, completed=(), skipped=(), validated=0, violations=(), inconclusive=(), index_s=0,
                    native_note=None, error=None, known=(), kani=()):
     touched = {}
@@ -192,8 +203,7 @@ def write_evidence(pid, tier, seed, mod, results, infos, wall, completed=(), ski
                     'transitions = MIR statements/terminators interpreted; obligations = solver queries of the form path-condition AND NOT property (must be unsat) '
                     'plus one partition query per job showing the explored path conditions cover the whole bounded input space',
         bounds=bounds, rungs_completed=list(completed), rungs_not_covered=list(skipped),
-        jobs=[dict(name=r.name, rung=r.rung, paths=r.paths, panics=r.panic_paths, steps=r.steps, feasibility_queries=r.queries, obligations=r.obligations,
-                   discharged=r.discharged, wall_s=round(r.wall_s, 2), partition_checked=r.partition_ok) for r in results][:400],
+        jobs=_job_table(results),
         functions_encoded=[dict(name=n, file=t[0], line=t[1], mir_hash=t[2]) for n, t in sorted(jj.items())][:300],
         functions_encoded_count=len(jj),
         branch_edges_covered=len(cov),
